@@ -101,6 +101,7 @@ def make_kernel(ctx, kind, N, terms, sweeps, tmode, in_order):
         steps = []; cur = None
         for ev in events:
             if ev[0] == 'pload': cur = []; steps.append(cur)
+            elif ev[0] == 'ret': cur = None
             elif cur is not None: cur.append(ev)
         obs.append(Ob('one Metropolis step per (sweep, position)', len(steps) == sweeps * N, info={'steps': len(steps), 'want': sweeps * N}))
         if len(steps) != sweeps * N:
@@ -208,6 +209,16 @@ def jobs(tier, seed):
     C4 = [(0,), (3,), (0, 1), (1, 2), (2, 3)]
     P3 = [(0,), (0, 1), (0, 1, 2), (1, 2)]
     J.append(dict(name='facts', sig='facts', module='vq.props.c12', make='make_facts', args={}, budget_s=120, witness_all=0, witness_rate=0))
+    # whole pipeline at T = 0 from a supplied initial state, several anneals (every anneal must start from that state)
+    PIPE = [('quso', 'QUSOMatrix', [(0,), (0, 1), (1, 2)], 2, 'T0', 'mixed'), ('quso', 'QUSOMatrix', [(0,), (1,), (0, 1), (1, 2), (0, 2)], 2, 'T00', 'up'),
+            ('quso', 'QUSOMatrix', [(0, 1), (1, 3)], 3, 'T0', 'down'), ('puso', 'PUSOMatrix', [(0, 1, 2), (1,), (0, 2)], 2, 'T0', 'mixed'),
+            ('puso', 'PUSOMatrix', [(0, 1, 2), (2,)], 2, 'T00', 'up'), ('qubo', 'QUBOMatrix', [(0,), (0, 1), (1, 2)], 2, 'T0', 'mixed'),
+            ('pubo', 'PUBOMatrix', [(0, 1, 2), (0,)], 2, 'T0', 'down')]
+    for i, (kind, mtype, keys, na, sched, init) in enumerate(PIPE):
+        J.append(dict(name='pipeline/%s/%s/%s/n=%d/%s/init=%s' % (kind, mtype, ','.join(''.join(map(str, k)) for k in keys), na, sched, init), sig='pipeline/%s' % kind,
+                      module='vq.props.pipeline', make='make_pipeline',
+                      args=dict(prop='C12', kind=kind, mtype=mtype, keys=[list(k) for k in keys], num_anneals=na, sched=sched, init=init, in_order=1),
+                      budget_s=600 if tier == 'quick' else 3000, witness_all=0, witness_rate=0, max_cex=10))
     if tier == 'quick':
         add('quso', 3, K3, 2, 'zero', 1)
         add('quso', 3, K3, 1, 'sym', 1)
